@@ -67,6 +67,8 @@ def gen_tree(rnd, depth=0):
             t.append(["flag", STR, rnd.choice(["true", "false", "on", "off", "1", "0", "yes", "no"])])
         if rnd.random() < 0.3:
             t.append(["num", STR, rnd.choice(["0", "7", "0x10", "010", "321"])])
+        if rnd.random() < 0.3:
+            t.append(["ratio", STR, rnd.choice(["0", "-0", "0", "-0.0", "nan", "nan", "1.5", "8.0", "inf", "1e3", "0.1"])])
     return t
 
 
@@ -88,7 +90,7 @@ def render_tree(t, rnd, ind=""):
         name = tok(rnd, nm)
         term = rnd.choice(["", "", ";", " ;"])
         if ty == STR:
-            if rnd.random() < 0.04 and nm not in ("t", "flag", "num"):
+            if rnd.random() < 0.04 and nm not in ("t", "flag", "num", "ratio"):
                 # the key is given twice: the later value is the one the file gives
                 out.append("%s%s %s%s" % (ind, name, tok(rnd, v + "-earlier"), term))
             out.append("%s%s%s%s%s" % (ind, name, rnd.choice([" ", "  ", "\t"]), tok(rnd, v), term))
@@ -160,6 +162,13 @@ def parse_typed(sub, val):
             if val.startswith("0") and len(val) > 1:
                 return int(val, 8) & 0xffffffff
             return int(val, 10) & 0xffffffff
+        except ValueError:
+            return None
+    if sub == 3:
+        # (as text, the way the daemon's value is dumped: NaN compares equal to itself here and 0 differs from -0,
+        # which is what "the value changed" means for a setting)
+        try:
+            return "%.17g" % float(val)
         except ValueError:
             return None
     if sub == 4:
@@ -288,7 +297,7 @@ def compare(model, dump, where):
                 want = "P="     # the typed view of a plain string is the string itself (both NULL when unset)
                 if g[4] != want:
                     viol.append(("parsed", "%s: plain string %s: parsed pointer state %s, expected %s" % (where, ps, g[4], want)))
-            elif sub in (1, 2, 4):
+            elif sub in (1, 2, 3, 4):
                 pv = parse_typed(sub, e[2])
                 if pv is not None and g[4][1:] != str(pv):
                     viol.append(("parsed", "%s: typed setting %s (%s) value %r should parse to %s, daemon has %s" %
@@ -364,6 +373,8 @@ def gen_regs(rnd):
         regs.append({"path": [["flag", STR]], "sub": 1, "default": rnd.choice(["true", "false"]), "listapi": None})
     if rnd.random() < 0.3:
         regs.append({"path": [["num", STR]], "sub": 2, "default": "321", "listapi": None})
+    if rnd.random() < 0.35:
+        regs.append({"path": [["ratio", STR]], "sub": 3, "default": rnd.choice(["1.5", "0", "2"]), "listapi": None})
     return regs
 
 
@@ -406,6 +417,9 @@ def damage(rnd, text):
                  '%s%s%s%s%s%n', ' %n oops here', '"%s%s" %s )', '%']
         return {"how": "splice", "at": [rnd.randrange(len(b) + 1) for _ in range(rnd.choice([1, 1, 2]))],
                 "frag": [rnd.choice(frags) for _ in range(2)]}
+    if k < 0.82:
+        # the file starts with bytes an editor put there (byte order marks, a stray NUL, a form feed)
+        return {"how": "prefix", "bytes": rnd.choice(["\xef\xbb\xbf", "\xef\xbb\xbf", "\xff\xfe", "\xfe\xff", "\x00", "\x0c", "\xef\xbb", "\xef"])}
     if k < 0.85:
         return {"how": "random", "bytes": "".join(chr(rnd.randrange(256)) for _ in range(rnd.randint(1, 200)))}
     if k < 0.9:
@@ -437,6 +451,8 @@ def apply_damage(d, text):
         for at, fr in sorted(zip(d["at"], d["frag"]), reverse=True):
             b[at:at] = fr.encode("latin1")
         return bytes(b)
+    if h == "prefix":
+        return d["bytes"].encode("latin1") + bytes(b)
     if h == "random":
         return d["bytes"].encode("latin1")
     if h == "empty":
